@@ -549,7 +549,34 @@ pub fn run(a: &RunArgs) -> Outcome {
         }
         // shrink, write the final replay file
         let final_path = format!("{}/{}-s{}-j{}-r{}-{}.json", replay_dir, a.prop, a.seed, f.job, f.sub, f.profile);
-        let shrunk = crate::shrink::shrink_file(&exe, &f.replay, &f.violation, &f.profile, shrink_deadline);
+        let mut shrunk = crate::shrink::shrink_file(&exe, &f.replay, &f.violation, &f.profile, shrink_deadline);
+        // Not reproducible in a fresh process although the worker saw it (even on a fresh thread)?
+        // Then process-wide state left by earlier runs of the same job is part of the story:
+        // rebuild the history from the job's earlier runs and let the shrinker cut it down.
+        let needs_history = match &shrunk {
+            Ok(j) => j["shrink"]["reproduced_before_shrinking"] == serde_json::Value::Bool(false) && j["history_before"].as_array().map(|a| a.is_empty()).unwrap_or(true),
+            Err(_) => false,
+        };
+        if needs_history && f.sub > 0 {
+            std::env::set_var("ASESIM_PROFILE", &f.profile);
+            let ctx = Ctx::new(a.seed, a.tier);
+            let job = props::make_job(&ctx, &a.prop, f.job);
+            let from = f.sub.saturating_sub(256);
+            if let Ok(text) = std::fs::read_to_string(&f.replay) {
+                if let Ok(mut pj) = serde_json::from_str::<Value>(&text) {
+                    let hist: Vec<Value> = (from..f.sub.min(job.len())).map(|s| job.plan(&ctx, s).to_json()).collect();
+                    pj["history_before"] = Value::Array(hist);
+                    let _ = std::fs::write(&f.replay, serde_json::to_string(&pj).unwrap());
+                    let deadline2 = Instant::now() + Duration::from_secs(a.shrink_budget_s.max(60));
+                    let again = crate::shrink::shrink_file(&exe, &f.replay, &f.violation, &f.profile, deadline2);
+                    if let Ok(j) = &again {
+                        if j["shrink"]["reproduced_before_shrinking"] == serde_json::Value::Bool(true) {
+                            shrunk = again;
+                        }
+                    }
+                }
+            }
+        }
         match shrunk {
             Ok(j) => {
                 let _ = std::fs::write(&final_path, serde_json::to_string_pretty(&j).unwrap());
